@@ -4,6 +4,8 @@ MODULES = {
     # name -> where the package under test lives in /repo and which harness directory is overlaid into it
     "rueidis": {"dir": ".", "harness": "rueidis"},
     "rueidiscompat": {"dir": "rueidiscompat", "harness": "rueidiscompat", "package": "rueidiscompat"},
+    # packages inside the root module: built from /repo with ./<pkgdir>
+    "rueidislock": {"dir": ".", "pkgdir": "rueidislock", "harness": "rueidislock", "package": "rueidislock"},
 }
 
 REAL = ("all of package github.com/redis/rueidis built from /repo's working tree with -tags verif "
